@@ -76,6 +76,7 @@ Kernel(fab, A, L) ==
       beta == TLCEval([s \in S4 |->
                  IF ol THEN (IF dead THEN PZero
                              ELSE IF s = mx THEN PConst(QOne)
+                             ELSE IF ratio(s) = QZ THEN PZero        \* r |r|^(n-1) = 0 exactly
                              ELSE IF s = mid THEN PVar(2)
                              ELSE IF s = mn THEN PVar(3) ELSE PZero)
                  ELSE (IF s = 4 /\ enActive THEN PConst(QOne) ELSE PZero)])
